@@ -79,7 +79,24 @@ func genOverlayPair(rt *rapid.T) (old, nw []byte, desc []string) {
 		if rapid.Bool().Draw(rt, "padsametail") {
 			tailB = tailA
 		}
-		return append(make([]byte, a), tailA...), append(make([]byte, b), tailB...), []string{fmt.Sprintf("zeros(%d)+tail(%d) -> zeros(%d)+tail(%d)", a, len(tailA), b, len(tailB))}
+		fill := rapid.SampledFrom([]byte{0, 0, 0xAA, 0x01}).Draw(rt, "padbyte")
+		pa, pb := make([]byte, a), make([]byte, b)
+		for i := range pa {
+			pa[i] = fill
+		}
+		for i := range pb {
+			pb[i] = fill
+		}
+		if rapid.Bool().Draw(rt, "padgrows") {
+			// a file of one constant byte that grows past its old end
+			grow := rapid.SampledFrom([]int{1, 8 * KiB, 8*KiB + 1, 20 * KiB, 130 * KiB}).Draw(rt, "padgrow")
+			nb := make([]byte, a+grow)
+			for i := range nb {
+				nb[i] = fill
+			}
+			return pa, nb, []string{fmt.Sprintf("fill%02x(%d) -> fill(%d)", fill, a, a+grow)}
+		}
+		return append(pa, tailA...), append(pb, tailB...), []string{fmt.Sprintf("fill%02x(%d)+tail(%d) -> fill(%d)+tail(%d)", fill, a, len(tailA), b, len(tailB))}
 	}
 	if len(old) >= 128*KiB && target > len(old) && rapid.IntRange(0, 3).Draw(rt, "periodic") == 0 {
 		// new = old followed by a repetition of old's last window(s): the data past old's EOF equals
@@ -133,6 +150,13 @@ func TestC14(t *testing.T) {
 	Ev.Assume("the old-file reader is file-like (short only at EOF), as *os.File is")
 	Prop(t, "C14", func(rt *rapid.T) {
 		old, nw, runs := genOverlayPair(rt)
+		shiftD := 0
+		if rapid.IntRange(0, 7).Draw(rt, "shifted") == 0 && len(old) > 20*KiB {
+			// new = d fresh bytes + old: every later window equals the old file d bytes earlier
+			shiftD = rapid.SampledFrom([]int{1, 100, 4096, 8192}).Draw(rt, "shiftd")
+			nw = append(Bytes(uint64(shiftD)+9, shiftD), old...)
+			runs = []string{fmt.Sprintf("fresh%d + old", shiftD)}
+		}
 		sliceMode := rapid.IntRange(0, 3).Draw(rt, "wslice")
 		sliceSeed := rapid.Uint64().Draw(rt, "wsliceseed")
 		flushEvery := rapid.IntRange(0, 12).Draw(rt, "flushevery") // 0 = never
@@ -155,6 +179,21 @@ func TestC14(t *testing.T) {
 		fed := 0
 		nwrites, flushes := 0, 0
 		var script []string
+		if shiftD > 0 && shiftD <= len(nw) {
+			// the first shiftD bytes (what was inserted in front of the old content) are written and
+			// flushed on their own; the same session then continues
+			if _, werr := ow.Write(nw[:shiftD]); werr != nil {
+				Violation(rt, "C14/write-failed", "Write(%d): %v", shiftD, werr)
+				return
+			}
+			if ferr := ow.Flush(); ferr != nil {
+				Violation(rt, "C14/flush-failed", "Flush: %v", ferr)
+				return
+			}
+			fed = shiftD
+			script = append(script, fmt.Sprintf("w%d", shiftD), "flush(same session continues)")
+			Ev.Probe("small_flush_then_same_session_over_shifted_content")
+		}
 		if rapid.IntRange(0, 5).Draw(rt, "flushatzero") == 0 {
 			// a checkpoint before the first byte of content, then a new session from the reported offsets
 			if ferr := ow.Flush(); ferr != nil {
@@ -162,8 +201,8 @@ func TestC14(t *testing.T) {
 				return
 			}
 			ro, oo := ow.ReadOffset(), ow.OverlayOffset()
-			if ro != 0 {
-				Violation(rt, "C14/read-offset-after-flush", "after Flush before any content ReadOffset is %d", ro)
+			if ro != int64(fed) {
+				Violation(rt, "C14/read-offset-after-flush", "after Flush with %d bytes of new content written ReadOffset is %d", fed, ro)
 				return
 			}
 			script = append(script, fmt.Sprintf("flush@0(ro=%d,oo=%d)+resume", ro, oo))
@@ -173,7 +212,7 @@ func TestC14(t *testing.T) {
 				Violation(rt, "C14/resume-writer", "NewOverlayWriter(%d,%d): %v", ro, oo, err)
 				return
 			}
-			Ev.Probe("session_resumed_before_first_byte")
+			Ev.ProbeIf(fed == 0, "session_resumed_before_first_byte")
 		}
 		nextLen := func(rem int) int {
 			var l int
